@@ -87,6 +87,11 @@ inductive Resolves (st : St) (s : Nat) : Prop where
   | warm (h : st.sirm = some s)
   /-- freshly opened handle: bootstrap chain read from the device -/
   | cold (h1 : st.sirm = none) (h2 : st.sbrm = none) (sb : Nat) (h3 : Bootstrap st.dev.mem sb s)
+  /-- SBRM cached (by the public `ControlHandle::sbrm()`, or by a `sirm()` whose last read
+  failed), SIRM address not yet: it is read from the cached SBRM -/
+  | mixed (h1 : st.sirm = none) (sb cap : Nat) (h2 : st.sbrm = some (sb, cap)) (hcap : cap % 2 = 1)
+      (hsp : sb + 0x28 ≤ 2 ^ 64) (hm : st.dev.mem.rangeMapped sb 0x28 = true)
+      (haddr : regVal st.dev.mem sb SBRM_SIRM_ADDRESS 8 = s)
 
 /-- start of a conforming, fault-free run inside the theorem scope -/
 structure Conforming (st : St) (s e : Nat) : Prop where
@@ -129,6 +134,15 @@ theorem enable_run (p : Profile) (st : St) (s e : Nat) (h : Conforming st s e) :
       rcases ha with rfl | rfl | rfl <;> trivial
     · unfold enableStreaming
       rw [M.bind_ok _ _ _ _ _ (getSirm_cold m sb s log h3)]
+      rw [enableAt_ok p m s e _ _ (some s) hs hin]
+  | mixed h1 sb cap h2 hcap hsp hm haddr =>
+    simp only at h1 h2 hm haddr; subst h1; subst h2
+    refine ⟨[.r (sb + SBRM_SIRM_ADDRESS) 8 true], some (sb, cap), ?_, ?_⟩
+    · intro a ha
+      simp only [List.mem_cons, List.not_mem_nil, or_false] at ha
+      subst ha; trivial
+    · unfold enableStreaming
+      rw [M.bind_ok _ _ _ _ _ (getSirm_mixed m sb cap s log hcap hsp hm haddr)]
       rw [enableAt_ok p m s e _ _ (some s) hs hin]
 
 /-- final image and result of a conforming run -/
@@ -396,6 +410,51 @@ and both build profiles the call returns `Ok` or `Err`. -/
 theorem never_panics (p : Profile) (st : St) : (enableStreaming p st).1 ≠ .panic :=
   (NP.enableStreaming p st).1
 
+/-- **failure_atomic_enable for the whole call** (`enable_streaming` = SIRM address resolution,
+then `enableAt`): for every state, image, fault schedule and profile — if the resolution fails
+the call fails with the same error after reads only and the image is unchanged; otherwise, with
+`s` the resolved SIRM address and `pre` the (read-only) accesses of the resolution, the accesses of
+the call are `pre ++ new` with everything `failure_atomic_enable` says about `new`. -/
+theorem failure_atomic_enable_streaming (p : Profile) (st : St) :
+    (∃ pre, (∀ a ∈ pre, a.isRead) ∧ (getSirm st).2.dev.log = st.dev.log ++ pre ∧
+      (getSirm st).2.dev.mem = st.dev.mem) ∧
+    (∀ s, (getSirm st).1 = .ok s →
+      let st1 := (getSirm st).2
+      let lost := Access.w (s + SI_CONTROL) (toLE 4 1) false true
+      enableStreaming p st = enableAt p s st1 ∧
+      ∃ new, (enableStreaming p st).2.dev.log = st1.dev.log ++ new ∧
+        (enableStreaming p st).2.dev.mem = replay new st.dev.mem ∧
+        (∀ a ∈ new.dropLast, ¬ a.enables s) ∧
+        ((∃ a ∈ new, a.succeeded = false) → ∃ err, (enableStreaming p st).1 = .err err) ∧
+        ((enableStreaming p st).1 ≠ .ok () → ∀ a ∈ new, a.enables s → a = lost) ∧
+        ((enableStreaming p st).1 ≠ .ok () → lost ∉ new → enabledIn (enableStreaming p st).2.dev.mem s →
+            enabledIn st.dev.mem s ∧ ∀ a ∈ new, ¬ a.touches s)) ∧
+    (∀ e, (getSirm st).1 = .err e → (enableStreaming p st).1 = .err e ∧
+      (enableStreaming p st).2 = (getSirm st).2) := by
+  obtain ⟨pre, hp1, hp2, hp3⟩ := resolution_reads_only st
+  refine ⟨⟨pre, hp3, hp1, hp2⟩, ?_, ?_⟩
+  · intro s hs st1 lost
+    have hfac : enableStreaming p st = enableAt p s st1 := by
+      rw [enableStreaming_factors]
+      cases hg : getSirm st with
+      | mk r st' =>
+        have : r = .ok s := by rw [hg] at hs; exact hs
+        subst this
+        simp only [st1, hg]
+    refine ⟨hfac, ?_⟩
+    obtain ⟨new, h1, h2, h3, h4, h5, h6⟩ := failure_atomic_enable p s st1
+    rw [hfac]
+    have hmem : st1.dev.mem = st.dev.mem := hp2
+    rw [hmem] at h2 h6
+    exact ⟨new, h1, h2, h3, h4, h5, h6⟩
+  · intro e he
+    rw [enableStreaming_factors]
+    cases hg : getSirm st with
+    | mk r st' =>
+      have : r = .err e := by rw [hg] at he; exact he
+      subst this
+      exact ⟨rfl, rfl⟩
+
 /-- **disable_streaming** on a conforming device: one write `SI_CONTROL := 0`, the enable bit is
 clear afterwards. -/
 theorem disable_clears (m : Mem) (log : List Access) (c : Option (Nat × Nat)) (s : Nat)
@@ -441,6 +500,11 @@ def exSt : St := ⟨⟨exMem, [], []⟩, none, none⟩
 example : Conforming exSt 0x1000 4 :=
   ⟨rfl, .cold rfl rfl 0x2000 ⟨by decide, by decide, by decide, by decide, by decide, by decide,
       by decide, by decide⟩,
+    ⟨by decide, by decide⟩, ⟨by decide, by decide, by decide, by decide, by decide⟩⟩
+
+/-- the mixed cache state (SBRM cached through the public `sbrm()`, SIRM not) -/
+example : Conforming ⟨⟨exMem, [], []⟩, some (0x2000, 1), none⟩ 0x1000 4 :=
+  ⟨rfl, .mixed rfl 0x2000 1 rfl (by decide) (by decide) (by decide) (by decide),
     ⟨by decide, by decide⟩, ⟨by decide, by decide, by decide, by decide, by decide⟩⟩
 
 example : enabledIn exSt.dev.mem 0x1000 := by decide
